@@ -1,0 +1,30 @@
+//go:build verif
+
+package server
+
+// Contracts for server_c.go / server_s.go, read by the rcvc verifier in /verif (comment-only; adds no code).
+
+//@ use rand
+
+//@ define rs(slot) = core.EngineGlobal.Slots2Node[slot]
+//@ define masterOnly(ls, r) = ls.DisableSlave || r.Type > codec.ReqWriteCmdStart || r.Type == codec.ReqHscan || r.Type == codec.ReqSscan || r.Type == codec.ReqZscan
+//@ define healthy(a) = has(core.EngineGlobal.ProxyPool, a) && !old(core.EngineGlobal.ProxyPool[a].AutoBanFlag)
+//@ define listed(a) = exists k int :: 0 <= k && k < len(liveSlaves) && liveSlaves[k] == a
+
+//@ func listenServer.route
+//@   props C04 C20
+//@   requires r != nil && ls.Options != nil && core.EngineGlobal != nil
+//@   requires 0 <= slot && slot < 16384 && rs(slot) != nil && rs(slot).Master != nil
+//@   requires forall j int :: 0 <= j && j < len(rs(slot).Slaves) ==> rs(slot).Slaves[j] != nil
+//@   requires forall a string :: has(core.EngineGlobal.ProxyPool, a) ==> core.EngineGlobal.ProxyPool[a] != nil
+//@   ensures[master@C04] masterOnly(ls, r) ==> !result1 && result0 == rs(slot).Master.Addr
+//@   ensures[role@C04] !result1 ==> result0 == rs(slot).Master.Addr
+//@   ensures[replica@C04] result1 ==> exists j int :: 0 <= j && j < len(rs(slot).Slaves) && result0 == rs(slot).Slaves[j].Addr && has(core.EngineGlobal.ProxyPool, result0)
+//@   ensures[pick@C20] result1 ==> len(liveSlaves) > 0 && result0 == liveSlaves[rand_choice(len(liveSlaves))]
+//@   ensures[complete@C20] result1 ==> forall j int :: 0 <= j && j < len(rs(slot).Slaves) && healthy(rs(slot).Slaves[j].Addr) ==> listed(rs(slot).Slaves[j].Addr)
+//@   ensures[fallback@C20] (!masterOnly(ls, r) && !result1) ==> forall j int :: 0 <= j && j < len(rs(slot).Slaves) ==> !healthy(rs(slot).Slaves[j].Addr)
+//@   loop 0
+//@     invariant 0 <= rangeindex + 1 && rangeindex + 1 <= len(rs(slot).Slaves)
+//@     invariant forall k int :: 0 <= k && k < len(liveSlaves) ==> exists j int :: 0 <= j && j <= rangeindex && liveSlaves[k] == rs(slot).Slaves[j].Addr && has(core.EngineGlobal.ProxyPool, liveSlaves[k])
+//@     invariant forall j int :: 0 <= j && j <= rangeindex && healthy(rs(slot).Slaves[j].Addr) ==> listed(rs(slot).Slaves[j].Addr)
+//@     invariant forall a string :: !has(core.EngineGlobal.ProxyPool, a) || core.EngineGlobal.ProxyPool[a].AutoBanFlag == old(core.EngineGlobal.ProxyPool[a].AutoBanFlag) || !core.EngineGlobal.ProxyPool[a].AutoBanFlag
